@@ -94,3 +94,49 @@ def report_feature(text):
 def abnormal_violation(r, res, what):
     """Record an abnormal termination of a tool as a violation of the running check."""
     r.violate(res.key, "%s: %s terminated abnormally (%s)" % (what, os.path.basename(res.argv[0]), res.key), run=res.brief())
+
+
+def run_must_terminate(ctx, tool, args, cwd, flavor=None, quick_timeout=40, confirm_timeout=240, env=None):
+    """Run a tool that must terminate.  A timeout is re-run once alone with a much larger budget; only a
+    *confirmed* hang is returned as such (res.kind == 'timeout', res.key = 'hang:<tool>:<frame>')."""
+    res = tool_run(ctx, tool, args, cwd, flavor, timeout=quick_timeout, env=env)
+    if not res.timeout:
+        return res, False
+    res2 = tool_run(ctx, tool, args, cwd, flavor, timeout=confirm_timeout, env=env)
+    if not res2.timeout:
+        return res2, False
+    # witness: innermost libabigail frame of the spinning process
+    frame = hang_frame([ctx.tool(tool, flavor)] + list(args), cwd, ctx.home())
+    res2.kind = "timeout"
+    res2.key = "hang:%s:%s" % (tool, frame)
+    return res2, True
+
+
+def hang_frame(argv, cwd, home):
+    import subprocess
+    import time
+    import signal
+    env = dict(run.BASE_ENV)
+    env["HOME"] = home
+    try:
+        p = subprocess.Popen(argv, cwd=cwd, env=env, stdout=subprocess.DEVNULL, stderr=subprocess.DEVNULL, stdin=subprocess.DEVNULL)
+    except OSError:
+        return "?"
+    time.sleep(8)
+    frame = "?"
+    try:
+        g = subprocess.run(["gdb", "-batch", "-p", str(p.pid), "-ex", "bt 30"], stdout=subprocess.PIPE, stderr=subprocess.DEVNULL, timeout=120)
+        for line in g.stdout.decode(errors="replace").splitlines():
+            m = re.match(r"#\d+\s+(?:0x[0-9a-f]+ in )?([\w:~<>]+)", line)
+            if m and ("abigail" in m.group(1) or m.group(1) == "main"):
+                frame = run._clean_fn(m.group(1))
+                break
+    except Exception:
+        pass
+    finally:
+        try:
+            p.send_signal(signal.SIGKILL)
+            p.wait(timeout=10)
+        except Exception:
+            pass
+    return frame
